@@ -4,6 +4,7 @@ C18): frame specs, matches derived from frames, action lists.
 All output is JSON-serialisable.
 """
 
+from simkit.rng import Rng, mix
 from models import of10wire as W
 from models import rawframe as F
 
@@ -86,6 +87,11 @@ def gen_frame(r, rich=False, nhosts=4, trunc=False):
         and r.chance(0.25):
       fs["l4cut"] = r.pick({"tcp": [0, 4, 12, 19], "udp": [0, 4, 7],
                             "icmp": [0, 2, 3]}[k])
+  if trunc and k in ("snap", "llc") and not fs.get("snapvlan"):
+    rt = Rng(mix(fs.get("pseed", 0), fs["paylen"], "tag8023"))
+    if rt.chance(0.4):
+      # (C03 only) a tagged 802.3 frame: tag, then length, then LLC
+      fs["tag8023"] = [rt.pick([1, 5, 100, 0xfff]), rt.pick([0, 3, 7])]
   if k not in ("snap", "llc") and r.chance(0.3):
     fs["vlan"] = [r.pick([1, 5, 100, 0xfff, 0]), r.pick([0, 0, 3, 7])]
     if r.chance(0.2):
